@@ -637,6 +637,9 @@ func loadKnown() map[string]known {
 }
 
 func replay(path string) int {
+	if abs, err := filepath.Abs(path); err == nil {
+		path = abs // the worker runs in its own directory
+	}
 	b, err := os.ReadFile(path)
 	if err != nil {
 		fatal(2, "%v", err)
